@@ -151,7 +151,10 @@ func reference(c *SWCase) (out point, inDomain bool, why string) {
 			if ps[0].isInf() || ps[0].X.Cmp(cv.G.X) == 0 || ks[0].Sign() == 0 || ks[1].Sign() == 0 {
 				return inf(), false, "JointScalarMulBase: p=(0,0), p=+-g or zero scalar without complete arithmetic"
 			}
-			if res.isInf() {
+			if res.isInf() && cv.Lambda != nil {
+				// GLV curves: Shamir accumulation in incomplete affine formulas cannot output (0,0).
+				// Curves without endomorphism combine the two partial products with AddUnified,
+				// which documents (0,0) results: asserted there.
 				return inf(), false, "JointScalarMulBase: result is infinity without complete arithmetic"
 			}
 			if tinyGLVScalar(cv, ks[0]) || tinyGLVScalar(cv, ks[1]) {
@@ -178,7 +181,24 @@ func reference(c *SWCase) (out point, inDomain bool, why string) {
 		for _, t := range terms {
 			res = cv.add(res, t)
 		}
-		if !c.Complete {
+		if !c.Complete && len(ps) == 2 && cv.Lambda == nil {
+			// two terms on a curve without endomorphism: [s1]p1 and [s2]p2 are computed
+			// separately and combined with AddUnified (jointScalarMulFakeGLV): equal /
+			// opposite points or partial products and an infinity result are in the domain
+		} else if !c.Complete && len(ps) == 2 {
+			// two terms on a GLV curve: one call of jointScalarMulGLVUnsafe (documented: points != (0,0),
+			// P != +-Q, scalars != 0); equal partial products are in the domain, an infinity result
+			// cannot be output by the incomplete affine accumulation
+			if ps[0].X.Cmp(ps[1].X) == 0 {
+				return inf(), false, "MultiScalarMul: repeated/opposite points without complete arithmetic"
+			}
+			if res.isInf() {
+				return inf(), false, "MultiScalarMul: result is infinity without complete arithmetic"
+			}
+			if tinyGLVScalar(cv, ks[0]) || tinyGLVScalar(cv, ks[1]) {
+				return inf(), false, "MultiScalarMul: scalar with tiny GLV sub-scalars without complete arithmetic (incomplete accumulation, not asserted)"
+			}
+		} else if !c.Complete {
 			// the incomplete variant combines pair results with the incomplete
 			// addition: keep only cases where no pair of (partial) results is
 			// equal, opposite or infinity, and no two input points are equal/opposite.
@@ -645,6 +665,10 @@ func runSWUnguarded(c SWCase) ev.Outcome {
 		return ev.Outcome{Discard: true, DiscardWhy: "outside documented domain: " + strings.SplitN(why, ":", 2)[0]}
 	}
 	classes, exceptional := classesOf(&c)
+	if rel := partialProductRelation(&c); rel != "" {
+		classes = append(classes, "partial-products:"+rel)
+		exceptional = true
+	}
 	if out.isInf() {
 		classes = append(classes, "result:infinity")
 		exceptional = true
@@ -694,4 +718,29 @@ func trimErr(err error) string {
 		s = s[:400] + "…"
 	}
 	return s
+}
+
+// partialProductRelation labels two-term sums ([s1]g + [s2]p, or a two-point
+// MultiScalarMul) whose partial products coincide ("equal": the final addition
+// is a doubling) or cancel ("opposite": the result is the point at infinity).
+func partialProductRelation(c *SWCase) string {
+	cv := curves[c.Curve]
+	var a, b point
+	switch {
+	case c.Op == opJoint && len(c.Points) == 1 && len(c.Scalars) == 2:
+		a, b = cv.mul(c.Points[0].point(), c.Scalars[0].value()), cv.mul(cv.G, c.Scalars[1].value())
+	case c.Op == opMSM && len(c.Points) == 2 && len(c.Scalars) == 2:
+		a, b = cv.mul(c.Points[0].point(), c.Scalars[0].value()), cv.mul(c.Points[1].point(), c.Scalars[1].value())
+	default:
+		return ""
+	}
+	switch {
+	case a.isInf() || b.isInf():
+		return ""
+	case a.eq(b):
+		return "equal"
+	case a.X.Cmp(b.X) == 0:
+		return "opposite"
+	}
+	return ""
 }
